@@ -363,3 +363,23 @@ func verifH_C02_whole_file_chain() {
 	verifAssert(desc == "leaf", "C02 whole-file chain: the reference resolves to the object at the end of the chain of files")
 	verifReach("end")
 }
+
+//verif:harness id=C02 tier=quick,thorough witness=end bounds="cycles that consist of references only (A: {$ref: A}; A: {$ref: B}, B: {$ref: A}; a chain of three) for the nine component kinds: no object stands at the end of such a chain, so loading fails (known finding: it succeeds and leaves the references unresolved)"
+func verifH_C02_pure_cycles() {
+	kind := verifKinds[verifChoose("kind", len(verifKinds))]
+	ref := func(n string) string { return `{"$ref":"#/components/` + kind + `/` + n + `"}` }
+	var comps string
+	switch verifChoose("shape", 3) {
+	case 0:
+		comps = `"A":` + ref("A")
+	case 1:
+		comps = `"A":` + ref("B") + `,"B":` + ref("A")
+	case 2:
+		comps = `"A":` + ref("B") + `,"B":` + ref("C") + `,"C":` + ref("A")
+	}
+	rootText := `{"openapi":"3.0.0","info":{"title":"t","version":"1"},"paths":{},"components":{"` + kind + `":{` + comps + `}}}`
+	doc, err := verifLoadFiles(rootText, nil)
+	verifKnown("C02-pure-reference-cycle-loads-unresolved", true)
+	verifAssert(err != nil && doc == nil, "C02 pure cycles: a cycle of references with no object in it makes loading fail (nothing is left unresolved in a document that loads)")
+	verifReach("end")
+}
